@@ -268,13 +268,17 @@ func (ex *Ex) callByContract(fr *Frame, st *State, ins ssa.Instruction, callee *
 	// havoc assigns
 	ex.havocAssigns(cf, st, ctr, args)
 	// ghost level state written by the callee
-	for _, gname := range []string{"$cap", "$dom", "$out", "$ncalls"} {
+	for _, gname := range []string{"$cap", "$dom", "$out", "$ncalls", "$pargs", "$ptext"} {
 		for _, en := range ctr.Ensures {
 			ids := map[string]bool{}
 			exprIdents(en.E, ids)
 			if ids[gname] {
 				if cur, ok := st.ghost[gname]; ok && gname == "$out" {
 					st.ghost[gname] = SV{T: ex.FreshVar("gout", SString), Ty: cur.Ty}
+				} else if cur, ok := st.ghost[gname]; ok && (gname == "$pargs" || gname == "$ptext") {
+					st.ghost[gname] = SV{T: ex.FreshVar("g"+gname, cur.T.S), Ty: cur.Ty}
+				} else if gname == "$pargs" || gname == "$ptext" {
+					// not tracked in this run
 				} else {
 					st.ghost[gname] = SV{T: ex.FreshVar("g"+gname, SInt), Ty: tInt}
 				}
@@ -480,13 +484,34 @@ func (ex *Ex) invoke(fr *Frame, st *State, ins ssa.Instruction, cc *ssa.CallComm
 				if n >= 0 {
 					cur := pa.T
 					es := SIface
+					var els []*T
 					for i := 0; i < n; i++ {
 						el := Select(st.cells[av.Back], Add(av.BackOff, IntLit(int64(i))))
+						els = append(els, el)
 						cur = w.MkSlice(es, Store(w.SliceArr(cur, es), w.SliceLen(cur), el), Add(w.SliceLen(cur), IntLit(1)), tFalse)
 					}
 					st.ghost["$pargs"] = SV{T: cur, Ty: pa.Ty}
+					// $ptext: the text handed to the printer so far, as fmt renders it (Printf: Sprintf of
+					// format and operands; Print of one operand: its %v rendering; T7)
+					if pt, ok := st.ghost["$ptext"]; ok {
+						var piece *T
+						if m.Name() == "Printf" && len(cc.Args) == 2 && n <= 3 {
+							fv := ex.termOf(fr, st, ex.val(fr, st, cc.Args[0]), cc.Args[0].Type())
+							piece = App(fmt.Sprintf("f$sprintf%d", n), SString, append([]*T{fv}, els...)...)
+						} else if m.Name() == "Print" && n == 1 {
+							piece = App("f$fmtV", SString, els[0])
+						}
+						if piece != nil {
+							st.ghost["$ptext"] = SV{T: App("str.++", SString, pt.T, piece), Ty: pt.Ty}
+						} else {
+							st.ghost["$ptext"] = SV{T: ex.FreshVar("ptext", SString), Ty: pt.Ty}
+						}
+					}
 				} else {
 					st.ghost["$pargs"] = SV{T: ex.FreshVar("pargs", pa.T.S), Ty: pa.Ty}
+					if pt, ok := st.ghost["$ptext"]; ok {
+						st.ghost["$ptext"] = SV{T: ex.FreshVar("ptext", SString), Ty: pt.Ty}
+					}
 				}
 			}
 			res, _ := ex.freshResults(m.Name(), sig)
@@ -1039,7 +1064,7 @@ func (ex *Ex) havocLoop(fr *Frame, st *State, li *loopInfo) {
 		// ghost state written by calls in the loop body (output written so far, printer arguments,
 		// callback count, captured stack level): unknown after an arbitrary number of iterations
 		// unless an invariant says otherwise
-		for _, gname := range []string{"$out", "$pargs", "$ncalls", "$cap", "$dom"} {
+		for _, gname := range []string{"$out", "$pargs", "$ptext", "$ncalls", "$cap", "$dom"} {
 			if cur, ok := st.ghost[gname]; ok && cur.T != nil {
 				st.ghost[gname] = SV{T: ex.FreshVar("lg"+gname, cur.T.S), Ty: cur.Ty}
 			}
